@@ -500,7 +500,7 @@ func ruleR17(c *Ctx) {
 			// does the buffer outlive the call? (a field or global rather than a local allocation)
 			longLived := true
 			if v := identVar(info, buf); v != nil && !v.IsField() && v.Parent() != m.Pkg.Scope() {
-				if def := singleDef(info, u.Body, v); def != nil && isFreshExpr(info, def) {
+				if def := singleDef(info, u.Body, v); def != nil && isFreshExpr(c.m, def) {
 					longLived = false
 				}
 			}
